@@ -113,7 +113,7 @@ NOT_YET = {}
 
 # round-15 additions to what each check explores (appended to the level text)
 ADD15 = {
- "C01": " Operator chains written without parentheses (OpCases.tla GrammarTree: the operand structure is the grammar's, 6.5.5-6.5.14): every ordered pair of the 18 binary operators and a slice (thorough: all) of the triples, on operand tuples that distinguish the grammar's tree from every other tree.",
+ "C01": " Operator chains written without parentheses (OpCases.tla GrammarTree: the operand structure is the grammar's, 6.5.5-6.5.14): every ordered pair of the 18 binary operators and a slice (thorough: all) of the triples, on operand tuples that distinguish the grammar's tree from every other tree; the sign-sensitive operators < >= / % >> are enumerated on every type pair in every run.",
  "C03": " SigGen.tla: signatures of a definition called in the same unit (0..3 parameters from 13 type classes, named or unnamed, variadic or not); QbeWF obligation SigMatchesC compares header, call and C signature pairwise.",
  "C04": " Floating results that need IEEE-754 rounding are decided (CArith DRound: round-to-nearest-even of exact dyadic values to binary32/binary64): f-suffixed, hexadecimal and large integral constants, integer->floating and double->float conversions, rounded arithmetic; unparenthesised operator chains and ?: in every folding context.",
  "C05": " EnumConst.tla: the type of an enumeration constant and of the enumerated type as a function of the enumerator values, the types of their defining expressions, implicit successors and a fixed underlying type, probed inside the enumerator list and after the closing brace.",
